@@ -66,12 +66,17 @@ func (ev *Evidence) addHarness(hr *HarnessResult) {
 		ev.Inconclusive = append(ev.Inconclusive, hr.Harness+": "+s)
 	}
 	for _, s := range hr.Samples {
-		if len(ev.Samples) < 6 {
-			ev.Samples = append(ev.Samples, s)
+		if len(ev.Samples) < 12 {
+			var obj interface{}
+			if json.Unmarshal([]byte(s), &obj) == nil {
+				ev.Samples = append(ev.Samples, obj)
+			} else {
+				ev.Samples = append(ev.Samples, s)
+			}
 		}
 	}
 	for _, f := range hr.Findings {
-		if len(ev.Samples) < 10 {
+		if len(ev.Samples) < 16 {
 			ev.Samples = append(ev.Samples, map[string]interface{}{"finding": f.Kind, "label": f.Label, "msg": f.Msg, "inputs": f.Inputs})
 		}
 	}
